@@ -1,5 +1,5 @@
 #pragma once
 #include <LiquidCrystal.h>
 class LiquidCrystal_I2C : public LiquidCrystal { public:
-  LiquidCrystal_I2C(int, int cc, int rr) : LiquidCrystal(0, 0, 0, 0, 0, 0) { begin(cc, rr); }
-  void init() {} void backlight() {} void noBacklight() {} };
+  LiquidCrystal_I2C(int, int cc, int rr) : LiquidCrystal(0, 0, 0, 0, 0, 0) { cols = cc; rows = rr; cells.assign(rr, std::string(cc, ' ')); }
+  void init() { printf("LB:%d:%d\n", cols, rows); } void backlight() {} void noBacklight() {} };
